@@ -12,21 +12,76 @@ use nv::{Case, CaseWriter, Obs, Outcome, Rng, adversary::FaultySink, guarded};
 
 use crate::common::{V, bad, diff_column, first_diff, first_window_len, is_gz, make_reader, show};
 
+/// explicitly configured (format, compression) pairs
 pub const FMTS: [&str; 4] = ["vcf", "vcfgz", "bcf", "bcfraw"];
+/// builder defaults: format set but compression not set (`vcfdef`, `bcfdef`), nothing set (`def`)
+pub const DEFAULTS: [&str; 3] = ["vcfdef", "bcfdef", "def"];
+pub const ALL: [&str; 7] = ["vcf", "vcfgz", "bcf", "bcfraw", "vcfdef", "bcfdef", "def"];
 
+/// what the stream must be: for the default codes, the defaults the builder documents
+/// ("If the format is not set, a default format is used [VCF]. If the compression method is not
+/// set, a default one is determined by the format": VCF => none, BCF => BGZF)
 pub fn fmt_of(code: &str) -> (Format, Option<CompressionMethod>) {
     match code {
-        "vcf" => (Format::Vcf, None),
+        "vcf" | "vcfdef" | "def" => (Format::Vcf, None),
         "vcfgz" => (Format::Vcf, Some(CompressionMethod::Bgzf)),
-        "bcf" => (Format::Bcf, Some(CompressionMethod::Bgzf)),
+        "bcf" | "bcfdef" => (Format::Bcf, Some(CompressionMethod::Bgzf)),
         _ => (Format::Bcf, None),
     }
 }
-fn family(code: &str) -> &'static str {
+/// what is set on the writer builder
+fn builder_cfg(code: &str) -> (Option<Format>, Option<Option<CompressionMethod>>) {
     match code {
-        "vcf" | "vcfgz" => "vcf",
-        _ => "bcf",
+        "def" => (None, None),
+        "vcfdef" => (Some(Format::Vcf), None),
+        "bcfdef" => (Some(Format::Bcf), None),
+        _ => {
+            let (f, k) = fmt_of(code);
+            (Some(f), Some(k))
+        }
     }
+}
+fn family(code: &str) -> &'static str {
+    match fmt_of(code).0 {
+        Format::Vcf => "vcf",
+        Format::Bcf => "bcf",
+    }
+}
+
+/// the reader a user would pick for this format and compression, from the format's own crate
+fn read_specific(code: &str, bytes: &[u8]) -> io::Result<Vec<Vec<u8>>> {
+    let mut lines = Vec::new();
+    match fmt_of(code) {
+        (Format::Vcf, None) => {
+            let mut r = vcf::io::Reader::new(bytes);
+            let h = r.read_header()?;
+            for rec in r.record_bufs(&h) {
+                lines.push(canon_line(&h, &rec?)?);
+            }
+        }
+        (Format::Vcf, Some(_)) => {
+            let mut r = vcf::io::Reader::new(noodles_bgzf::io::Reader::new(bytes));
+            let h = r.read_header()?;
+            for rec in r.record_bufs(&h) {
+                lines.push(canon_line(&h, &rec?)?);
+            }
+        }
+        (Format::Bcf, Some(_)) => {
+            let mut r = bcf::io::Reader::new(bytes);
+            let h = r.read_header()?;
+            for rec in r.record_bufs(&h) {
+                lines.push(canon_line(&h, &rec?)?);
+            }
+        }
+        (Format::Bcf, None) => {
+            let mut r = bcf::io::Reader::from(bytes);
+            let h = r.read_header()?;
+            for rec in r.record_bufs(&h) {
+                lines.push(canon_line(&h, &rec?)?);
+            }
+        }
+    }
+    Ok(lines)
 }
 
 pub struct Spec {
@@ -155,13 +210,17 @@ pub fn parse_spec(text: &[u8]) -> io::Result<(vcf::Header, Vec<vcf::variant::Rec
 }
 
 pub fn write_generic(code: &str, header: &vcf::Header, recs: &[&dyn vcf::variant::Record]) -> io::Result<Vec<u8>> {
-    let (f, k) = fmt_of(code);
+    let (f, k) = builder_cfg(code);
     let sink = FaultySink::new(vec![]);
     {
-        let mut w = variant::io::writer::Builder::default()
-            .set_format(f)
-            .set_compression_method(k)
-            .build_from_writer(sink.clone());
+        let mut b = variant::io::writer::Builder::default();
+        if let Some(f) = f {
+            b = b.set_format(f);
+        }
+        if let Some(k) = k {
+            b = b.set_compression_method(k);
+        }
+        let mut w = b.build_from_writer(sink.clone());
         w.write_header(header)?;
         for r in recs {
             w.write_record(header, *r)?;
